@@ -769,9 +769,51 @@ def swagger2_replay(chk, n):
                           {"raw": raw, "offered": o, "effective": ans["effective"]})
 
 
+def swagger_consumes(chk):
+    """Swagger 2.0: the body alternatives an operation is offered with are its effective `consumes` - its own list if it has
+    one, else the document's - whichever way the operation is obtained.  Designed family, independent oracle."""
+    import itertools
+    glob = [None, ["application/json"], ["application/xml", "application/json"]]
+    own = [None, ["application/x-www-form-urlencoded"], ["text/plain", "application/json"]]
+    kinds = ["body", "formData"]
+    for g, o, kind in itertools.product(glob, own, kinds):
+        param = ({"name": "b", "in": "body", "required": True, "schema": {"type": "object"}} if kind == "body"
+                 else {"name": "f", "in": "formData", "type": "string", "required": True})
+        op = {"operationId": "mk", "parameters": [param], "responses": {"200": {"description": "ok"}}}
+        if o is not None:
+            op["consumes"] = o
+        raw = {"swagger": "2.0", "info": {"title": "t", "version": "1"}, "paths": {"/a": {"post": op}}}
+        if g is not None:
+            raw["consumes"] = g
+        expected = o if o is not None else g
+        if expected is None:
+            expected = ["application/json"] if kind == "body" else None       # the documented default
+        routes = {}
+        schema = schemathesis.openapi.from_dict(copy.deepcopy(raw))
+        try:
+            routes["iterate"] = [r.ok() for r in schema.get_all_operations()][0]
+            routes["path-method"] = schemathesis.openapi.from_dict(copy.deepcopy(raw))["/a"]["POST"]
+            routes["by-id"] = schemathesis.openapi.from_dict(copy.deepcopy(raw)).get_operation_by_id("mk")
+            routes["by-reference"] = schemathesis.openapi.from_dict(copy.deepcopy(raw)).get_operation_by_reference("#/paths/~1a/post")
+        except Exception as e:  # noqa: BLE001
+            chk.feature(f"swagger-consumes:raises:{type(e).__name__}")
+            continue
+        for route, opn in routes.items():
+            got = [b.media_type for b in opn.body]
+            chk.case("swagger2:consumes", key=[g, o, kind, route], nontrivial=True,
+                     sample={"global": g, "own": o, "kind": kind, "route": route, "offered": got})
+            chk.feature(f"swagger-consumes:{'own' if o else 'global' if g else 'default'}:{kind}")
+            if expected is not None and got != expected:
+                chk.violation("C08:swagger2:body-alternatives-differ-from-effective-consumes",
+                              f"POST /a ({kind} parameter) obtained by {route} is offered with media types {got}; document "
+                              f"consumes={g}, operation consumes={o}: effective {expected}",
+                              {"document": raw, "route": route, "offered": got, "expected": expected})
+
+
 def run(chk):
     rng = chk.rng
     check_tables(chk)
+    swagger_consumes(chk)
     chk.assumptions += [
         "urljoin + file loading behave as the finite table `links` of the model says (computed by the harness with "
         "urllib.parse.urljoin over the fixture layout)",
